@@ -386,6 +386,17 @@ func drive(p *props.Prop) int {
 				merged.VioCount[v.Sig()]++
 			}
 		}
+		st := merged.Clauses["race"]
+		if st == nil {
+			st = &h.ClauseStat{}
+			merged.Clauses["race"] = st
+		}
+		st.Exercised += int64(nshards)
+		if raceReports == 0 {
+			st.Held += int64(nshards)
+		} else {
+			st.Violated += int64(len(seen))
+		}
 		merged.Counters["race.reports"] = int64(raceReports)
 		merged.Counters["race.distinct"] = int64(len(seen))
 	}
